@@ -533,6 +533,12 @@ def classify(prog, ctx, op, word, STATE, NOTIFY, C):
             a, b = n[2], n[3]
             if n[1] == "Add" and canon(a) == X and const_value(b) == RL:
                 return "read-acquire", ""
+            if n[1] == "BitAnd":
+                # the word with bits outside the lock field cleared (`state & !WRITERS_WAITING`): the lock field is kept
+                for x_, k_ in ((a, b), (b, a)):
+                    kv = fold(k_)
+                    if canon(x_) == X and kv is not None and (kv & MASK) == MASK:
+                        return "preserve", ""
             if n[1] == "BitOr":
                 terms = flatten_or(n)
                 if any(canon(t) == X for t in terms):
@@ -913,23 +919,7 @@ def check_handoff(ck, prog, handoff, cls, STATE, NOTIFY, C):
         if cn is None:
             # the new value computed from the state word, whose value the dominating equality fixes (`state & !WRITERS_WAITING` under
             # `state == READERS_WAITING | WRITERS_WAITING`)
-            def ev(e, depth=0):
-                e = strip_casts(e)
-                v = fold(e)
-                if v is not None or not isinstance(e, tuple) or depth > 8:
-                    return v
-                if e[0] == "var":
-                    return dominating_eq_const(ctx, bb, e)
-                if e[0] == "bin" and e[1] in ("BitAnd", "BitOr", "BitXor", "Add", "Sub"):
-                    a_, b_ = ev(e[2], depth + 1), ev(e[3], depth + 1)
-                    if a_ is None or b_ is None:
-                        return None
-                    return {"BitAnd": a_ & b_, "BitOr": a_ | b_, "BitXor": a_ ^ b_, "Add": (a_ + b_) & 0xFFFFFFFF, "Sub": (a_ - b_) & 0xFFFFFFFF}[e[1]]
-                if e[0] == "un" and e[1] == "Not":
-                    a_ = ev(e[2], depth + 1)
-                    return None if a_ is None else (~a_) & 0xFFFFFFFF
-                return None
-            cn = ev(op.args[1])
+            cn = eval_under_eq(ctx, bb, op.args[1])
         if ce is None or cn is None:
             ck.ob("C02.7", f"handoff-cas-constant|{canon_args(op)}", False, fn=handoff, site=ctx.site(bb), detail="hand-off CAS operands are not constants (cannot pair cleared bits with wakes)")
             continue
@@ -1011,6 +1001,8 @@ def check_handoff(ck, prog, handoff, cls, STATE, NOTIFY, C):
         if p != handoff or not op.op.startswith("compare_exchange"):
             continue
         cn = const_value(op.args[1])
+        if cn is None:
+            cn = eval_under_eq(ctx, bb, op.args[1])
         ce = const_values_deep(op.args[0], ctx.prov) or dominating_eq_const(ctx, bb, op.args[0])
         if cn is None or ce is None:
             continue
@@ -1035,7 +1027,7 @@ def check_handoff(ck, prog, handoff, cls, STATE, NOTIFY, C):
                                     defs_in_region = [(dbb, didx) for (dbb, didx) in ctx.prov.defs.get((xs[1], None), []) if dbb in region]
                                     reaching = [d for d in xs[3] if d[0] != "param" and d[0] in region]
                                     if reaching and len(reaching) == len([d for d in xs[3]]) - len([d for d in xs[3] if d[0] == "param" or d[0] not in region]) and all(
-                                            fold(ctx.prov.def_expr(d, (xs[1], None), 0, frozenset())) == RWAIT for d in reaching):
+                                            (fold(ctx.prov.def_expr(d, (xs[1], None), 0, frozenset())) == RWAIT or eval_under_eq(ctx, d[0], ctx.prov.def_expr(d, (xs[1], None), 0, frozenset())) == RWAIT) for d in reaching):
                                         # only region-internal defs can reach here from the Ok edge
                                         cut.add((e2.src, e2.dst))
             r = ctx.cfg.reachable_from(e.dst, avoid=set(rclear), avoid_edges=cut)
@@ -1043,6 +1035,25 @@ def check_handoff(ck, prog, handoff, cls, STATE, NOTIFY, C):
             ck.ob("C02.7", "no-writer-woken-falls-back-to-readers", bool(rclear) and not bad, fn=handoff, site=ctx.site(bb),
                   detail="after clearing WRITERS_WAITING with readers still waiting, a path returns although wake_writer did not report a woken writer and the readers were not woken")
     ck.floor("C02.7", "hand-off CAS leaving READERS_WAITING", n_fb, 1)
+
+
+def eval_under_eq(ctx, bb, e, depth=0):
+    """value of an expression over the state word at block bb, the word's value fixed by a dominating `state == K`"""
+    e = strip_casts(e)
+    v = fold(e)
+    if v is not None or not isinstance(e, tuple) or depth > 8:
+        return v
+    if e[0] == "var":
+        return dominating_eq_const(ctx, bb, e)
+    if e[0] == "bin" and e[1] in ("BitAnd", "BitOr", "BitXor", "Add", "Sub"):
+        a_, b_ = eval_under_eq(ctx, bb, e[2], depth + 1), eval_under_eq(ctx, bb, e[3], depth + 1)
+        if a_ is None or b_ is None:
+            return None
+        return {"BitAnd": a_ & b_, "BitOr": a_ | b_, "BitXor": a_ ^ b_, "Add": (a_ + b_) & 0xFFFFFFFF, "Sub": (a_ - b_) & 0xFFFFFFFF}[e[1]]
+    if e[0] == "un" and e[1] == "Not":
+        a_ = eval_under_eq(ctx, bb, e[2], depth + 1)
+        return None if a_ is None else (~a_) & 0xFFFFFFFF
+    return None
 
 
 def dominating_eq_const(ctx, bb, expr):
